@@ -189,6 +189,29 @@ def candidates(tier, rnd):
     t.variants[0].fields[2].extra_attrs.append("#[default(9)]")
     out.append((t, "attr", "Clone, Default"))
     out.append((t, "derive", "Default, Clone"))
+    # Clone derived next to the comparison traits / Hash / Debug / Default on a type whose own equality looks at some fields only: clone_from may not consult it
+    for la in ("Clone, PartialEq, Eq", "Clone, Eq, PartialEq, PartialOrd, Ord, Hash", "Debug, Default, Clone, PartialEq"):
+        t = TypeSpec("struct", [Variant(None, "named", [F("f0", "RE"), F("f1", "RE"), F("f2", "RE")])], shape="struct-named3-RE-eq-ignore")
+        ign = "#[ord(ignore)]" if "Ord" in la else ("#[eq(ignore)]" if "Eq," in la + "," else "#[partial_eq(ignore)]")
+        t.variants[0].fields[1].extra_attrs.append(ign)
+        out.append((t, "attr", la))
+        t2 = TypeSpec("enum", [Variant("V0", "tuple", [F(None, "RE"), F(None, "RE")]), Variant("V1", "named", [F("a", "RE")]), Variant("V2", "unit", [])], shape="enum-RE-eq-ignore")
+        t2.variants[0].fields[0].extra_attrs.append(ign)
+        if "Default" in la:
+            t2.variants[2].extra_attrs.append("#[default]")
+        out.append((t2, "attr" if "Hash" not in la else "derive", la))
+    # field names that are not in alphabetical order (declaration order is what counts), next to tuple fields
+    t = TypeSpec("struct", [Variant(None, "named", [F("zeta", "R"), F("alpha", "R"), F("mid", "R"), F("beta", "u8")])], shape="struct-named4-unsorted-names")
+    out.append((t, "attr", "Clone"))
+    t = TypeSpec("enum", [Variant("Zed", "named", [F("y", "R"), F("x", "R")]), Variant("Able", "named", [F("q", "R"), F("c", "u8"), F("a", "R")]), Variant("Mid", "unit", [])], shape="enum-unsorted-names")
+    out.append((t, "attr", "Clone"))
+    out.append((t, "derive", "Clone"))
+    # many variants (a data-carrying one in the middle and at the end): nothing depends on how many there are
+    for nv in (17, 33) if tier != "thorough" else (9, 17, 33, 65):
+        vs = [Variant("U%d" % i, "unit", []) for i in range(nv)]
+        vs[nv // 2] = Variant("U%d" % (nv // 2), "tuple", [F(None, "R"), F(None, "R")])
+        vs[nv - 1] = Variant("U%d" % (nv - 1), "named", [F("a", "R")])
+        out.append((TypeSpec("enum", vs, shape="enum-%d-variants" % nv), "attr", "Clone"))
     # generic wrappers, bound arguments (must not change behaviour)
     for la in ("Clone", "Clone(bound(A: Clone))", "Clone, bound(A)", "Clone(bound(..))"):
         t = TypeSpec("struct", [Variant(None, "named", [F("a", "A"), F("b", "R"), F("p", "core::marker::PhantomData<A>")])], [("A", "R")], shape="struct-generic")
